@@ -18,7 +18,7 @@ open Proto Rng
       labels <start> <file> <cur> <pos> <n> <ncpu> <tables>  -> seed labels of the rows an extension appends
       timehist <edges> <seed:pos,…> <step/step/…> <tables>   step = d,<svc>,<tmin|n>,<tmax|n>,<size> | s,<edges ;-sep> | o,<svc>,<k> | r,<svc>,<seed>
           -> times:<floats|ERR>/… svcs:<seed:pos>,…
-      extfile <start> <n> <ncpu> <seed> <pos> <mseed:mpos|-> <file> <grid1> <grid2> <maxEv> <thr> <maxRep> <npar> <lo> <hi> <tables>
+      extfile <start> <n> <ncpu> <seed> <pos> <mseed:mpos|-> <overwrite 0|1> <sig_kwargs -|e|m:x> <file> <grid1> <grid2> <maxEv> <thr> <maxRep> <npar> <lo> <hi> <tables>
           grid = s:<m> | r2:<a>,<b> | r3:<a>,<b>,<step> | a:<list>
           -> rows:<…> file:<labels of the new file> rss:<seed>:<pos>  |  ERR:<index|value|runtime> rss:<…>
       trials <n> <ncpu> <seed> <pos> <mseed:mpos|-|same> <maxEv> <nSig> <thr> <maxRep> <npar> <lo> <hi> <tables>
@@ -220,11 +220,14 @@ def answer (line : String) : String :=
       | .error _ => "ERR:value"
   | ["labels", st, file, cur, pos, n, ncpu, tabs] =>
       fListD toString (extendLabels (genOf (parseTables tabs)) id (pN st) (pList pN file) (pN cur) (pN pos) (pN n) (pN ncpu))
-  | ["extfile", st, n, ncpu, seed, pos, m, file, g1, g2, maxEv, thr, maxRep, npar, lo, hi, tabs] =>
+  | ["extfile", st, n, ncpu, seed, pos, m, ow, kw, file, g1, g2, maxEv, thr, maxRep, npar, lo, hi, tabs] =>
       -- extend_trial_data_file(ana, rss, n, trial_data, mean_n_sig=g1, mean_n_sig_null=g2, ncpu) on the synthetic analysis
       let clen := fun (x : Float) => if x ≤ 0 then 0 else x.ceil.toUInt64.toNat
-      let grid := (gridOf Nat.toFloat clen (pGrid g1)).flatMap (fun m =>
-        (gridOf Nat.toFloat clen (pGrid g2)).map (fun m0 => (m, m0)))
+      -- the caller's sig_kwargs: `-` = None, `e` = a dict without 'mean', `m:<x>` = a dict that already carries one
+      let kw0 : Option (Option Float) := if kw == "-" then none else if kw == "e" then some none else
+        some (some (pF (kw.drop 2).toString))
+      let grid := effGrid (pB ow) kw0 ((gridOf Nat.toFloat clen (pGrid g1)).flatMap (fun m =>
+        (gridOf Nat.toFloat clen (pGrid g2)).map (fun m0 => (m, m0))))
       let cfgOf := fun (g : Float × Float) =>
         synCfg ⟨pN maxEv, g.1.floor.toUInt64.toNat, pF thr, pN maxRep, pN npar, pF lo, pF hi⟩
       let (w, ms) : World × Option Nat := match pStream m with
